@@ -646,7 +646,15 @@ pub fn check_c12(prog: &NetProgram, res: &NetResult, info: &mut RunInfo) {
             }
         }
     }
-    let got: Vec<(usize, u8)> = res.trace.iter().filter_map(|r| if let Ev::Start { stage, .. } = r.ev { Some((r.m as usize, stage)) } else { None }).collect();
+    let all_starts: Vec<(usize, u8, u16)> = res.trace.iter().filter_map(|r| if let Ev::Start { stage, inc } = r.ev { Some((r.m as usize, stage, inc)) } else { None }).collect();
+    // the start-up of the simulation comes first and is complete before anything else happens; what follows it are the
+    // start-up stages of restarts (a module may ask for a shutdown-and-restart from its start-up callback)
+    let got: Vec<(usize, u8)> = all_starts.iter().take(expect.len()).map(|(m, s, _)| (*m, *s)).collect();
+    if let Some((m, s, _)) = all_starts.iter().skip(expect.len()).find(|(_, _, inc)| *inc == 0) {
+        info.violate(Violation::new("C12", "start-count", format!(
+            "at_sim_start(stage {s}) of {} was called again after the start-up of the simulation was complete ({} calls expected)", module_path(prog, *m), expect.len())));
+        return;
+    }
     if got != expect {
         let pos = got.iter().zip(expect.iter()).position(|(a, b)| a != b).unwrap_or(got.len().min(expect.len()));
         let name = |x: Option<&(usize, u8)>| x.map(|(m, s)| format!("{}@stage{}", module_path(prog, *m), s));
